@@ -40,6 +40,18 @@ func H(a int) int { return work(a) + 3000 }
 //go:noinline
 func Gen[T int | int64]() T { return T(work(5) + 4000) }
 
+// GenF, GenG, GenH: the targets f, g, h of the lifecycle family as instantiations of generic functions
+// (goom supports generic functions without parameters: the shape body's first argument is the dictionary).
+//
+//go:noinline
+func GenF[T int | int64]() T { return T(work(0) + 1000) }
+
+//go:noinline
+func GenG[T int | int64]() T { return T(work(0) + 2000) }
+
+//go:noinline
+func GenH[T int | int64]() T { return T(work(0) + 3000) }
+
 //go:noinline
 func f(a int) int { return work(a) + 1000 }
 
